@@ -372,10 +372,13 @@ impl SendRateComp {
                     // Do nothing, this is acceptable
                 } else {
                     // Alter recv_rate_set so as to halve current send rate moving forward
-                    let current_limit = state.send_rate_tcp.min(recv_rate.saturating_mul(2));
+                    // The application's maximum send rate limits the current rate as well; without
+                    // it the 'halved' rate could exceed the configured maximum (and the rate in
+                    // effect before the timer expired)
+                    let current_limit = state.send_rate_tcp.min(recv_rate.saturating_mul(2)).min(self.max_send_rate);
                     let new_limit = (current_limit/2).max(MINIMUM_RATE);
                     self.recv_rate_set.reset(now_ms, new_limit/2);
-                    self.send_rate = state.send_rate_tcp.min(new_limit);
+                    self.send_rate = state.send_rate_tcp.min(new_limit).max(MINIMUM_RATE);
                 }
             }
             _ => panic!()
